@@ -356,11 +356,11 @@ func semProgramKeyed(r *explore.Run, be *semBackend, p *prog, d int, sc string) 
 
 func runSem(be *semBackend) int {
 	r := explore.New(be.prop)
-	fams := quickFamilies(r)
+	fams := append(quickFamilies(r), wgen.F3(r.Thorough()), wgen.F4Access())
 	d1 := 1
 	forEachProgram(r, fams, nil, func(p *prog) {
 		d := d1
-		if strings.HasPrefix(p.Case.Family, "F2") && !r.Thorough() {
+		if (strings.HasPrefix(p.Case.Family, "F2") || strings.HasPrefix(p.Case.Family, "F3")) && !r.Thorough() {
 			d = 0
 		}
 		semProgram(r, be, p, d)
@@ -368,7 +368,7 @@ func runSem(be *semBackend) int {
 	c := wgen.F1().At(0)
 	r.Sample(map[string]any{"program": c.Sig, "source": wgen.Print(c.Mod), "invocations": c.Groups[0]})
 	printKeys(r)
-	return r.Finish("every program of F1 (operators x shapes x sources, boundary-value input tuples laid over N invocations) and F2 (all control-flow trees within the node budget x 3 positions x 16 control inputs) x every "+be.name+" option set within 1 deviation (F2: default only in the quick tier); the emitted code is executed by an independent interpreter and compared leaf-by-leaf with the reference WGSL evaluator; evaluations = invocations executed; distinct = distinct output buffers observed",
+	return r.Finish("every program of F1 (operators x shapes x sources, boundary-value input tuples laid over N invocations), F2 (all control-flow trees within the node budget x 3 positions x 16 control inputs), F3 (memory shapes: every type tree of the layout grammar read leaf by leaf and copied five ways) and F4acc (27 dynamic access forms with every in-bounds index, u32 and i32) x every "+be.name+" option set within 1 deviation (F2: default only in the quick tier); the emitted code is executed by an independent interpreter and compared leaf-by-leaf with the reference WGSL evaluator; evaluations = invocations executed; distinct = distinct output buffers observed",
 		[]string{"the reference evaluator (internal/wref) and the target interpreter are the trusted base; they were written independently of naga from the language specifications",
 			"inputs on which WGSL leaves latitude (inf/nan/subnormal results, inexact int->float, division by zero in GLSL) are excluded or masked",
 			"approximate float builtins are compared with a tolerance of 2e-4 relative"})
